@@ -72,7 +72,8 @@ def random_history(rng, n):
         elif r < 0.49:
             evs.append({"op": "add_graph", "g": rng.choice(G[1:])})
         elif r < 0.60:
-            evs.append({"op": "update", "g": g, "kind": rng.choice(["insertdata", "deletedata", "replace"]), "t": t, "o2": rng.choice(O)})
+            evs.append({"op": "update", "g": g, "kind": rng.choice(["insertdata", "deletedata", "replace", "replace"]), "t": t, "o2": rng.choice(O),
+                        "form": rng.choice(["ground", "bound_upper", "bound_lower", "bound_mixed"])})
         elif r < 0.68:
             evs.append({"op": "commit"})
         elif r < 0.74:
@@ -122,7 +123,8 @@ def run(out, tier, seed):
         for h in hs:
             n += 1
             m, f = combos[n % len(combos)]
-            evs = list(h) + [{"op": "triples", "g": "D", "pat": ["_", "_", "_"]}, {"op": "triples", "g": "g1", "pat": ["_", "_", "_"]}]
+            evs = [dict(e, form=["ground", "bound_upper", "bound_lower", "bound_mixed"][(n + i) % 4]) if e.get("op") == "update" else e for i, e in enumerate(h)]
+            evs += [{"op": "triples", "g": "D", "pat": ["_", "_", "_"]}, {"op": "triples", "g": "g1", "pat": ["_", "_", "_"]}]
             jobs.append({"cfg": {"autocommit": ac, "dirty_reads": dr, "method": m, "format": f, "vocab": vocabs[n % len(vocabs)]}, "events": evs})
     for i in range(400 if quick else 6000):
         ac = rng.random() < 0.4
